@@ -152,7 +152,36 @@ def run(ctx: Ctx) -> dict:
         ctx.violate(clause, dict(key_of(m[h[bad]]), clause=clause),
                     {"history": [m[i] for i in h[:bad + 1]][-4:], "position": bad,
                      "got": events[e["i"]]["steps"][bad]["out"], "solo": events[e["i"]]["steps"][bad]["solo"]})
-    ncalls = sum(len(h) for h in hists)
+    # whole sessions of mixed calls of every kind, each run in two different orders in fresh
+    # interpreters: the outcome of a call must not depend on where in the session it ran
+    import session
+    senv = ctx.frozen(banks=True)
+    rng3 = random.Random(ctx.seed + 1500)
+    base_lists = [session.mixed_ops(ctx, senv, rng3, 150 if ctx.quick else 1500) for _ in range(4 if ctx.quick else 16)]
+    orders = []
+    for ops in base_lists:
+        perm = list(range(len(ops)))
+        rng3.shuffle(perm)
+        orders.append(perm)
+    sess = session.run_sessions(ctx, senv, base_lists + [[ops[i] for i in perm] for ops, perm in zip(base_lists, orders)],
+                                "c15")
+    nb = len(base_lists)
+    sess_diff = 0
+    for k in range(nb):
+        first = [e for e in sess[k] if not e["op"].startswith("load.")]
+        second = [e for e in sess[nb + k] if not e["op"].startswith("load.")]
+        for pos, i in enumerate(orders[k]):
+            if c14.canon(first[i]["out"]) != c14.canon(second[pos]["out"]):
+                sess_diff += 1
+                ctx.violate("outcome-depends-on-history", dict(key_of(first[i]), clause="outcome-depends-on-history",
+                                                               session=True),
+                            {"call": calls.describe_event(first[i]), "in_order_1": first[i]["out"],
+                             "in_order_2": second[pos]["out"], "preceding_in_order_2": [x["op"] for x in second[max(0, pos - 3):pos]]})
+    spec_mism = session.validate_sessions(ctx, senv, sess[:nb], "c15sess")
+    session_notes = {}
+    for n, e, clause in spec_mism:
+        session_notes[clause] = session_notes.get(clause, 0) + 1
+    ncalls = sum(len(h) for h in hists) + sum(len(x) for x in sess)
     ctx.evaluations += ncalls
     ctx.samples = [{"history": [m[i] for i in hists[len(m) + 3]], "outcomes": [s["out"] for s in events[len(m) + 3]["steps"]]}]
     ctx.assumptions += ["'first call in a fresh process' is realised by one new interpreter per menu call",
@@ -163,4 +192,6 @@ def run(ctx: Ctx) -> dict:
                     "outcome, registries and earlier objects unchanged; distinct = distinct histories",
             "distinct_nontrivial": len({tuple(h) for h in hists}), "exhaustive": False,
             "extra": {"menu_calls": len(m), "histories_run": len(hists), "calls_run": ncalls,
-                      "model_flagged_histories": len(flagged), "read_before_write_notes": disc}}
+                      "model_flagged_histories": len(flagged), "read_before_write_notes": disc,
+                      "session_calls": sum(len(x) for x in sess), "session_order_differences": sess_diff,
+                      "session_spec_verdict_notes": session_notes}}
